@@ -296,6 +296,16 @@ CHECKS += [
          technique="lifted execution of three device simulators on z3 circle-polynomial terms; z3 QF_NRA equality proofs between device results"),
 ]
 
+CHECKS += [
+    dict(property_id="C71", category="proof", engine=E1,
+         text="7 circuits with symbolic angles and snapshots at the start, between gates, consecutive and at the end (state / expval / probs / density_matrix, tagged and "
+              "untagged) through (A) the REAL qp.snapshots tape transform (prefix tapes run on the lifted default.qubit, real post-processing) and (B) default.qubit and "
+              "default.mixed with an active snapshot debugger (apply_operation's Snapshot branch). z3 proves for ALL angles that every tag holds the requested measurement "
+              "of the gate prefix (matrix-route oracle) and that the final results equal those of the circuit without snapshots; keys and their order are compared structurally.",
+         note=PROOF_NOTE + " Outside: snapshots with shots, qp.snapshots(qnode) wrapper plumbing, duplicate string tags, legacy / gaussian devices.",
+         technique="lifted execution of the snapshot transform and device snapshot branch on z3 circle-polynomial terms; z3 QF_NRA equality proofs"),
+]
+
 _NOT_BUILT = "claimed in DESIGN.md §4 but its solver-based check is not built yet in this tree"
 NOT_APPLICABLE_REASONS = {
     "C04": "equality/hash: Python hash() of concrete payloads and tolerance-based allclose relations; no exact relation a solver can decide",
